@@ -13,7 +13,7 @@ n=0; missed=0; noinput=0
 for d in seeded/*/; do
   id=$(basename "$d"); p=${id%-*}
   echo "$id" | grep -Eq "$PAT" || continue
-  if ! git -C "$REPO" apply "$d/patch.diff" 2>/dev/null && ! git -C "$REPO" apply --3way "$d/patch.diff" 2>/dev/null; then
+  if ! git -C "$REPO" apply "$PWD/$d/patch.diff" 2>/dev/null && ! git -C "$REPO" apply --3way "$PWD/$d/patch.diff" 2>/dev/null; then
     echo "$id PATCH-DOES-NOT-APPLY"; git -C "$REPO" reset -q --hard HEAD; continue
   fi
   out=$(./check "$p" ${TIER:-quick} 2>&1); rc=$?
